@@ -148,23 +148,31 @@ Definition C01_heal_full : Prop :=
 (** * Non-vacuity (closed by computation on a logged run of the implementation, FleetExample.v) *)
 
 (* the hypothesis of the theorems is satisfiable: the state after the launch phase of a real run *)
-Example C01_init_ok_inhabited : exists st, ex_launched = Some st /\ init_okb st = true.
-Proof. vm_compute. eexists. split; reflexivity. Qed.
+Example C01_init_ok_computed :
+  match ex_launched with Some st => init_okb st | None => false end = true.
+Proof. vm_compute. reflexivity. Qed.
 
-Example C01_init_ok_inhabited' : exists st, init_ok st.
+Example C01_init_ok_inhabited : exists st, ex_launched = Some st /\ init_ok st.
 Proof.
-  destruct C01_init_ok_inhabited as (st & _ & H). exists st. by apply init_okb_sound.
+  pose proof C01_init_ok_computed as H. destruct ex_launched as [st|]; [|done].
+  exists st. split; [done|]. by apply init_okb_sound.
 Qed.
 
 (* the run continues through a crash, the failure timeout, an ADD scheduled by the real scheduler and
-   executed: the shard's history has a second entry with 4 members (one surplus), the safety conjuncts
-   hold, and the invariant's consequences are not vacuous there *)
+   executed: the shard's history has a second entry with 4 members (one surplus), the boolean safety
+   conjuncts hold, the fleet is not healed: the invariant and its consequences are not vacuous there *)
 Example C01_repair_reached :
-  exists st h, ex_final = Some st /\ f_hist st !! 1 = Some h /\ length h = 2%nat /\
-               size (cur_members h) = 4%nat /\ safe_b st = true /\ healed ex_params st = false.
-Proof. vm_compute. eexists. eexists. repeat split; reflexivity. Qed.
+  match ex_final with
+  | Some st =>
+    match f_hist st !! 1 with
+    | Some h => (length h =? 2)%nat && (size (cur_members h) =? 4)%nat && safe_b st && negb (healed ex_params st)
+    | None => false
+    end
+  | None => false
+  end = true.
+Proof. vm_compute. reflexivity. Qed.
 
-(* the scheduler really has a choice in that run: the ADD it issued is allowed, and so is the same
-   request with another fresh replica id *)
-Example C01_fresh_ok_satisfiable : forall st b, NoDup (add_ids b) -> (forall x, x ∈ add_ids b -> x ∉ f_seen st) -> fresh_ok st (ESchedule (OBatch b)).
+(* the hypothesis on the random source is satisfiable for every batch with distinct new ids *)
+Example C01_fresh_ok_satisfiable : forall st b,
+  NoDup (add_ids b) -> (forall x, x ∈ add_ids b -> x ∉ f_seen st) -> fresh_ok st (ESchedule (OBatch b)).
 Proof. intros st b H1 H2. split; assumption. Qed.
